@@ -170,3 +170,33 @@ Definition mon_scalar (o : wop) (written : bytes) : bool :=
     the implementation's [to_tlv] produced for the element over [input] *)
 Definition mon_reencode (input reenc : bytes) : bool :=
   bytes_eqb reenc (firstn (length reenc) input).
+
+(** [ToTLV for TLVElement::tlv_iter(tag)] followed by [TLV::bytes_iter]:
+    re-encode a decoded element through the iterator encoder.  The
+    element's own [value()] under [tag], then - for a container - every
+    [TLV] that [tlv_iter] of its content yields, then the end marker. *)
+Fixpoint tlvs_bytes (l : list ((tag * tval) + N)) : rres bytes :=
+  match l with
+  | [] => ROk []
+  | inl (t, v) :: r => let! b := tlvs_bytes r in ROk (w_tlv t v ++ b)
+  | inr c :: _ => RErr c
+  end.
+
+Definition el_reencode_iter (t : tag) (s : bytes) : rres bytes :=
+  if is_nil s then ROk []
+  else
+    let! v := el_value s in
+    match el_container s with
+    | ROk sq =>
+        let! items := tlv_iter_all sq in
+        let! body := tlvs_bytes items in
+        ROk (w_tlv t v ++ body ++ w_end)
+    | _ => ROk (w_tlv t v)
+    end.
+
+(** "decode (encode v) = v" evaluated on the implementation's own read-back:
+    [readback] is the tree the real reader returned for the bytes the real
+    writer produced for [t] ([tag()], [value()], [container()?.iter()]), and
+    [reenc] what re-encoding that element through [tlv_iter] produced *)
+Definition mon_read_back (t readback : tree) (written reenc : bytes) : bool :=
+  tree_eqb t readback && bytes_eqb reenc written.
